@@ -131,7 +131,7 @@ def tasks(tier):
         else:
             shapes = MODELS
         for shape in shapes:
-            out.append({"family": fam, "model": shape, "ops": 2 if quick else 3, "reduced": quick, "subclass_first": fam in ("ints", "strs") and shape == "property"})
+            out.append({"family": fam, "model": shape, "ops": 2, "reduced": quick, "subclass_first": fam in ("ints", "strs") and shape == "property"})
     return out
 
 
@@ -146,7 +146,7 @@ BOUNDS = {
     "operations (the second from a reduced menu) from {send go, send stay, write a valid value (an equal but freshly built object) straight into the model, write a symbolic int / a pool value through the setter, send with a "
     "callback that writes the model during `on` or `after`, assign a State object of this or of another machine class to current_state}; for two families a subclass adding a state is defined first (its value stays unmapped for the base); after every operation field, current_state, current_state_value, is_active of every state and "
     "model identity are compared with the expectation.",
-    "thorough": "scripts of 3 operations, every family x model shape.",
+    "thorough": "every family x model shape; both operations from the full menu, every start_value choice also with a pre-stored state (scripts of 3 operations did not finish inside any reasonable budget: 350 k paths in an hour without exhausting one task).",
 }
 OUTSIDE = "values that are unhashable or compare equal across types (1 vs True); models that reject attribute assignment; Django model fields"
 OBLIGATIONS = ["foreign-state-assigned", "resumed-from-stored", "start-value-used", "start-value-falsy", "external-write-seen", "setter-unmapped-rejected", "setter-mapped", "falsy-value-active", "falsy-model-kept", "callback-write", "unmapped-start-rejected"]
